@@ -32,6 +32,7 @@ func runC17(c *Ctx) {
 	c06Learning(c)
 	ruleTokenSplitting(c, "layout", "parseViaParam", "ParseCSeq", "parseRequestLine", "parseStatusLine")
 	rulePurePrinters(c, "layout")
+	c01ValueEffects(c)
 	_ = w
 }
 
